@@ -448,6 +448,34 @@ example : TValid ⟨10859, 1500000000⟩ ∧ (addLeap ⟨10859, 1500000000⟩ 36
     diffAddErr ⟨86399, 1500000000⟩ 500000000 = -1000000000 ∧
     diffAddErr ⟨0, 1500000000⟩ (-2000000000) = 1000000000 := by decide
 
+/-- (audit G4) `diffLeap` is pinned down by the independent addition rule, not only by its own
+definition: `b + (a − b) = a` without carry whenever `a` can be reached from `b` at all (an ordinary
+`a`, or a leap `a` inside `b`'s own leap second); with `diff_inverts_add_same_day` (injectivity) the
+distance is THE `δ` with `addLeap b δ = (a, 0)`.  For a leap `a` and an ordinary `b` use
+antisymmetry (`diff_antisym`); for two leap seconds on different seconds the distance splits at the
+start of the later second into two such one-leap distances. -/
+theorem add_of_diff (a b : Time) (ha : TValid a) (hb : TValid b)
+    (h : a.frac < 1000000000 ∨ (a.secs = b.secs ∧ b.frac ≥ 1000000000)) :
+    addLeap b (diffLeap a b) = (a, 0) ∧
+    (∀ δ, addLeap b δ = (a, 0) → δ = diffLeap a b) := by
+  refine ⟨Proofs.TimeGaps.add_of_diff' a b ha hb h, ?_⟩
+  intro δ hδ
+  have h0 : (addLeap b δ).2 = 0 := by rw [hδ]
+  have := diff_inverts_add_same_day b δ hb h0
+  rw [hδ] at this
+  exact this.symm
+
+theorem diff_two_leaps_split (a b : Time) (h : a.secs < b.secs) :
+    diffLeap b a = diffLeap b ⟨b.secs, 0⟩ + diffLeap ⟨b.secs, 0⟩ a :=
+  Proofs.TimeGaps.diff_split' a b h
+
+example : addLeap ⟨10859, 1500000000⟩ (diffLeap ⟨10860, 0⟩ ⟨10859, 1500000000⟩) = (⟨10860, 0⟩, 0) ∧
+    diffLeap ⟨10860, 0⟩ ⟨10859, 1500000000⟩ = 500000000 ∧
+    addLeap ⟨10859, 1500000000⟩ (diffLeap ⟨10859, 1000000001⟩ ⟨10859, 1500000000⟩) =
+      (⟨10859, 1000000001⟩, 0) ∧
+    diffLeap ⟨14459, 1900000000⟩ ⟨10859, 1100000000⟩ =
+      diffLeap ⟨14459, 1900000000⟩ ⟨14459, 0⟩ + diffLeap ⟨14459, 0⟩ ⟨10859, 1100000000⟩ := by decide
+
 /-! ### Offset shifts keep the fraction (and with it the leap second) -/
 
 theorem offset_shift_keeps_frac (t : Time) (off : Int) (ht : TValid t)
